@@ -1,3 +1,4 @@
+from checks import finite
 from checks.generic import run_components
 
 ASSUME = ["exactness of basix' quadrature rules and UFL's degree estimation are external",
@@ -5,4 +6,4 @@ ASSUME = ["exactness of basix' quadrature rules and UFL's degree estimation are 
 
 
 def run(tier, seed):
-    return run_components("C11", tier, seed, ["e1", "e2"], ASSUME, ["kernelvc (E2)"])
+    return run_components("C11", tier, seed, ["e1", finite.c11_rule_selection, "e2"], ASSUME, ["kernelvc (E2)"])
